@@ -39,6 +39,9 @@ def economy(rnd, code='CA', currency=None, variant=None, names=None):
     margin = round(rnd.uniform(0.05, 0.2), 3) if variant == 'sim_margin_cap' else 0.0
     if variant == 'sim_margin_cap':
         secs += [dict(kind='cap', code=nm['cap'], alpha_income=round(rnd.uniform(0.3, 0.6), 4), alpha_fin=round(rnd.uniform(0.1, 0.3), 4), good=nm['good'])]
+        if rnd.random() < 0.5:
+            # a sector-level tax rate (used instead of the tax flow's rate for this sector only)
+            secs[-1]['own_taxrate'] = round(rnd.uniform(0.3, 0.5), 3)
     secs += [dict(kind='bus', code=nm['bus'], margin=margin, lab=nm['lab'], good=nm['good']),
              dict(kind='market', code=nm['lab']), dict(kind='market', code=nm['good']),
              dict(kind='tf', code=nm['tf'], rate=tax, to=govcode)]
@@ -99,6 +102,8 @@ def build(program):
                 o.AddVariable(v, '', e)
         else:
             raise ValueError(k)
+        if s.get('own_taxrate') is not None:
+            o.AddVariable('TaxRate', 'sector-level tax rate', repr(s['own_taxrate']))
         objs[(c['code'], s.get('code', k.upper()))] = o
     for (o, cc, tcode) in pending_cb:
         o.Treasury = objs[(cc, tcode)]
@@ -121,11 +126,12 @@ def build(program):
                 objs[(c['code'], scode)].AddVariable(var, 'user-declared demand', '0.0')
             objs[(c['code'], scode)].SetExogenous(var, val)
     for f in program.get('flows', []):
-        (sc, ss, dc, ds, var, expr) = f
+        (sc, ss, dc, ds, var, expr) = f[:6]
+        income = bool(f[6]) if len(f) > 6 else False
         src, dst = objs[(sc, ss)], objs[(dc, ds)]
         if var not in src.GetVariables():
             src.AddVariable(var, 'flow', expr)
-        mod.RegisterCashFlow(src, dst, var, is_income_source=False, is_income_dest=False)
+        mod.RegisterCashFlow(src, dst, var, is_income_source=income, is_income_dest=income)
     for (cc, sc, var, expr, stock) in program.get('gold', []):
         sec = objs[(cc, sc)]
         sec.AddVariable(var, 'gold purchases', expr)
